@@ -9,7 +9,8 @@ def run(ctx):
     ctx.level = "model_checking"
     ctx.cov["rule"] = ("one case = one real handshake between two mse.Stream endpoints (pads, fragmentation class and observed "
                        "first-read sizes, payload size, offer, selection policy, key mode) or one real btconn Dial/Accept scenario "
-                       "(policy of each side, peer kind, pads); non-trivial = at least the first message was exchanged; "
+                       "(policy of each side, peer kind, pads) or one real torrent.Session (encryption switches) dialing a raw scripted listener "
+                       "or one schedule of 2-3 simultaneous incoming handshakes with distinct initial payloads and interleaved reads; non-trivial = at least the first message was exchanged; "
                        "distinct = distinct (configuration, outcome) tuples")
     ctx.assumptions += [
         "crypto is opaque in the model: DH secrets agree, hashes/RC4 streams match iff the SKEYs match, pad bytes never imitate a marker",
@@ -33,12 +34,41 @@ def run(ctx):
         line = line.strip()
         if line.startswith('"@@'):
             scen.append(json.loads(json.loads(line)[2:]))
+    ses_scen = [x for x in scen if x.get("fam") == "ses"]
+    scen = [x for x in scen if "fam" not in x]
+    if len(ses_scen) < 18:
+        raise vlib.MachineryError("session matrix generator produced only %d scenarios" % len(ses_scen))
+    ses_scen.sort(key=lambda x: json.dumps(x, sort_keys=True))
+    if ctx.quick():     # quick: every (switches, listener kind) once, ForceIncomingEncryption alternating with the seed
+        byk = {}
+        for x in ses_scen:
+            byk.setdefault(json.dumps(x["sc"], sort_keys=True), []).append(x)
+        ses_scen = [v[(i + ctx.seed) % len(v)] for i, (k, v) in enumerate(sorted(byk.items()))]
+    ctx.extra["session_scenarios_generated_by_tlc"] = len(ses_scen)
     if len(scen) < 60:
         raise vlib.MachineryError("policy matrix generator produced only %d scenarios" % len(scen))
     sp = ctx.path("scen.ndjson")
     vlib.write_ndjson(sp, scen)
     ctx.extra["policy_scenarios_generated_by_tlc"] = len(scen)
     drv = ctx.build_go("c12")
+    # ---- 2b. isolation of the initial payload between simultaneous incoming connections: MC_MSEIso checks the design
+    #          for every interleaving and prints every complete schedule; the schedules are replayed with real streams
+    _, iout = ctx.tlc_mc("MC_MSEIso", ctx.pick("MC_MSEIso.cfg", "MC_MSEIso_full.cfg"), timeout=900, workers=4)
+    scheds = [json.loads(json.loads(x.strip())[2:]) for x in iout.splitlines() if x.strip().startswith('"@@')]
+    if len(scheds) < 100:
+        raise vlib.MachineryError("schedule generator produced only %d schedules" % len(scheds))
+    isp = ctx.path("isosched.ndjson")
+    vlib.write_ndjson(isp, scheds)
+    ctx.extra["iso_schedules_generated_by_tlc"] = len(scheds)
+    iso_out = ctx.path("iso.ndjson")
+    iso_proc = subprocess.Popen([drv, "-mode", "iso", "-sched", isp, "-seed", str(ctx.seed), "-reps", str(ctx.pick(2, 3)), "-out", iso_out],
+                                cwd=ctx.scratch, env=dict(vlib.GOENV), stdout=subprocess.PIPE, stderr=subprocess.STDOUT, text=True)
+    # ---- 2c. session level: a real torrent.Session dials a raw scripted listener under every setting of the switches
+    ssp = ctx.path("sesscen.ndjson")
+    vlib.write_ndjson(ssp, ses_scen)
+    ses_out = ctx.path("ses.ndjson")
+    ses_proc = subprocess.Popen([drv, "-mode", "ses", "-sched", ssp, "-seed", str(ctx.seed), "-out", ses_out],
+                                cwd=ctx.scratch, env=dict(vlib.GOENV), stdout=subprocess.PIPE, stderr=subprocess.STDOUT, text=True)
     # ---- 3. implementation -> specification
     lines = []
     nsh = ctx.pick(1, 4)
@@ -66,13 +96,36 @@ def run(ctx):
     pol_lines = vlib.read_ndjson(pol_out)
     if len(pol_lines) != len(scen) * ctx.pick(1, 4) and not any("timeout" in (e["ra"], e["rb"]) for e in pol_lines):
         raise vlib.MachineryError("policy driver produced %d lines for %d scenarios" % (len(pol_lines), len(scen)))
+    try:
+        o, _ = iso_proc.communicate(timeout=900)
+    except subprocess.TimeoutExpired:
+        iso_proc.kill()
+        raise vlib.MachineryError("iso driver timed out")
+    if iso_proc.returncode != 0:
+        raise vlib.MachineryError("iso driver failed (%d):\n%s" % (iso_proc.returncode, o[-3000:]))
+    iso_lines = vlib.read_ndjson(iso_out)
+    if len(iso_lines) != len(scheds) * ctx.pick(2, 3) and not any(e["hang"] for e in iso_lines):
+        raise vlib.MachineryError("iso driver produced %d lines for %d schedules" % (len(iso_lines), len(scheds)))
+    try:
+        o, _ = ses_proc.communicate(timeout=1200)
+    except subprocess.TimeoutExpired:
+        ses_proc.kill()
+        raise vlib.MachineryError("session driver timed out")
+    if ses_proc.returncode != 0:
+        raise vlib.MachineryError("session driver failed (%d): a connection attempt that never happens is not a verdict\n%s"
+                                  % (ses_proc.returncode, o[-3000:]))
+    ses_lines = vlib.read_ndjson(ses_out)
+    if len(ses_lines) != len(ses_scen):
+        raise vlib.MachineryError("session driver produced %d lines for %d scenarios" % (len(ses_lines), len(ses_scen)))
     account(ctx, hs_lines, pol_lines)
+    account_ses(ctx, ses_lines)
+    account_iso(ctx, iso_lines)
     # machinery sanity: the pad hook steered every run
     bad = [e for e in hs_lines if e["steer"] != 1]
     if bad:
         raise vlib.MachineryError("pad steering failed (hook order?) for %s" % json.dumps(bad[0]))
     # judge: policy lines in small groups (known findings cost one re-run each), handshakes in chunks
-    allv = pol_lines + hs_lines
+    allv = ses_lines + pol_lines + hs_lines
     k = 0
     for i in range(0, len(allv), HS_CHUNK):
         judge(ctx, allv[i:i + HS_CHUNK], "tr%d" % k)
@@ -129,7 +182,64 @@ def account(ctx, hs, pol):
         ctx.sample(pol[0])
 
 
+def account_ses(ctx, ses):
+    for e in ses:
+        ctx.count_case(("SES", e["enable"], e["force"], e["sfi"], e["ck"], e["keymode"], e["natt"], e["nplain"], e["p1"], e["p2"], e["rb"], e["cb"]),
+                       e["natt"] >= 1)
+        ctx.oblig("C12.forced.out", e["natt"] if e["force"] == 1 else 0)
+    ctx.extra["session_runs"] = len(ses)
+    ctx.extra["session_runs_with_plaintext_retry"] = sum(1 for e in ses if e["natt"] > 1)
+    ctx.extra["session_connection_attempts_observed"] = sum(e["natt"] for e in ses)
+    if ses:
+        ctx.sample(ses[0])
+
+
+def iso_rel(e):
+    """size relation of the payloads in handshake order, e.g. 1<2=3"""
+    r = "1"
+    for k in range(1, e["nc"]):
+        a, b = e["lens"][k - 1], e["lens"][k]
+        r += ("<" if a < b else ">" if a > b else "=") + str(k + 1)
+    return r
+
+
+def iso_overlap(e):
+    """a later handshake completed while an earlier connection's payload was not yet (completely) read"""
+    left = {}
+    for o in e["ops"]:
+        if o["k"] == "hs":
+            if any(v > 0 for v in left.values()):
+                return True
+            left[o["c"]] = e["lens"][o["c"] - 1]
+        else:
+            left[o["c"]] -= o["n"]
+    return False
+
+
+def account_iso(ctx, iso):
+    for e in iso:
+        ctx.count_case(("ISO", e["nc"], tuple(e["lens"]), e["ord"], e["unit"], e["split"], tuple(o["src"] for o in e["ops"]), tuple(e["post"])),
+                       iso_overlap(e))
+        ctx.oblig("C12.payload", sum(1 for o in e["ops"] if o["k"] == "rd"))
+        ctx.oblig("C12.agree", e["nc"])
+        ctx.oblig("C12.stream", e["nc"])
+    ctx.extra["iso_runs"] = len(iso)
+    ctx.extra["iso_runs_later_handshake_before_earlier_payload_read"] = sum(1 for e in iso if iso_overlap(e))
+    ctx.extra["iso_orders"] = len(set((e["nc"], e["ord"]) for e in iso))
+    ctx.extra["iso_units"] = sorted(set(e["unit"] for e in iso))
+    if iso:
+        ctx.sample(iso[0])
+        judge(ctx, iso, "iso", module="Trace_MSEIso", cfg="Trace_MSEIso_all.cfg")
+
+
 def signature(tag, e):
+    if e["op"] == "SES":
+        return ("tag=%s op=SES disableOut=%d forceOut=%d forceIn=%d listener=%s keymode=%s natt=%d nplain=%d p1=%d p2=%d rb=%s cb=%d"
+                % (tag, 1 - e["enable"], e["force"], e["sfi"], e["ck"], e["keymode"], e["natt"], e["nplain"], e["p1"], e["p2"], e["rb"], e["cb"]))
+    if e["op"] == "ISO":
+        return ("tag=%s op=ISO nc=%d order=%s sizes=%s overlap=%d split=%d src=%s post=%s"
+                % (tag, e["nc"], e["ord"], iso_rel(e), 1 if iso_overlap(e) else 0, e["split"],
+                   ",".join(str(o["src"]) for o in e["ops"]), ",".join(str(x) for x in e["post"])))
     if e["op"] == "POL":
         return ("tag=%s op=POL dk=%s enable=%d force=%d provide=%d ck=%s forceIn=%d selpol=%s keymode=%s loose=%d trunc=%d natt=%d ra=%s ca=%d rb=%s cb=%d"
                 % (tag, e["dk"], e["enable"], e["force"], e["provide"], e["ck"], e["forceIn"], e["selpol"], e["keymode"], e["loose"], e["trunc"],
@@ -146,28 +256,34 @@ WHAT = {
     "C12.stream": "bytes written after the handshake are not read unchanged by the peer",
     "C12.wrongkey": "handshake completes without the right SKEY",
     "C12.payload": "initial payload lost/garbled or oversize payload accepted",
-    "C12.forced.out": "forced outgoing encryption: plaintext redial or non-RC4 / clear-text connection returned by Dial",
+    "C12.forced.out": "forced outgoing encryption: plaintext redial / plaintext connection attempt, or non-RC4 / clear-text connection returned by Dial",
     "C12.forced.in": "forced incoming encryption: non-RC4 / clear-text connection returned by Accept",
 }
 
 
-def judge(ctx, lines, name):
+def judge(ctx, lines, name, module="Trace_MSE", cfg="Trace_MSE_all.cfg"):
     """One TLC run judges every line (Trace_MSE_all.cfg: the tags are printed as @@VIOL <line> <tag>, TLC does not stop
     at the first one).  Trace_MSE.cfg (INVARIANT NoViolation) is the stop-at-first form used for diagnosis."""
     cur = ctx.path("%s.ndjson" % name)
     vlib.write_ndjson(cur, lines)
-    res = ctx.tlc_validate("Trace_MSE", cur, cfg="Trace_MSE_all.cfg", ntraces=0, timeout=1800)
+    res = ctx.tlc_validate(module, cur, cfg=cfg, ntraces=0, timeout=1800)
     if not res["ok"]:
         hw = res["hwm"]
-        raise vlib.MachineryError("line %s of %s is not explained by Trace_MSE (driver/spec mismatch, not a verdict): %s\n%s"
-                                  % (hw, name, json.dumps(lines[hw]) if hw is not None and hw < len(lines) else "?",
+        raise vlib.MachineryError("line %s of %s is not explained by %s (driver/spec mismatch, not a verdict): %s\n%s"
+                                  % (hw, name, module, json.dumps(lines[hw]) if hw is not None and hw < len(lines) else "?",
                                      res["out"][-2500:]))
     found = {}
     for m in re.finditer(r'@@VIOL (\d+) (\S+?)"?\s*$', res["out"], re.M):
         found[int(m.group(1))] = m.group(2)
     ctx.cov["traces_validated_against_impl"] += len(lines) - len(found)
-    for ln in sorted(found):
+    real = [ln for ln in sorted(found) if found[ln] != "C12.model"]
+    for ln in real:
         tag, ev = found[ln], lines[ln - 1]
-        if tag == "C12.model":
-            raise vlib.MachineryError("recorded line is outside the specification without breaking a stated obligation: %s" % json.dumps(ev))
         ctx.violation(tag, signature(tag, ev), "%s: %s" % (WHAT.get(tag, tag), json.dumps(ev)[:600]), {"line": ev})
+    model = [lines[ln - 1] for ln in sorted(found) if found[ln] == "C12.model"]
+    if model and real:
+        # the tree already breaks a stated obligation in this batch: the lines that merely leave the model are recorded as leads
+        ctx.extra.setdefault("leads_outside_model", [])
+        ctx.extra["leads_outside_model"] += [signature("C12.model", ev) for ev in model[:10]]
+    elif model:
+        raise vlib.MachineryError("recorded line is outside the specification without breaking a stated obligation: %s" % json.dumps(model[0]))
